@@ -57,7 +57,7 @@ func samples3(k string, n int, get func(i int) (x, y, z float64)) string {
 	return k + ":" + joinOr(",", ss)
 }
 
-const gmDateFormat = "060102150405.000"
+const gmDateFormat = "20060102150405.000" // four-digit year: the century must be right too
 
 func dumpData(d any) string {
 	switch v := d.(type) {
@@ -512,6 +512,9 @@ func gmSensor(r *rng, s *sink) [][]byte {
 			if r.chance(1, 20) {
 				v = 0
 			}
+			if r.chance(1, 5) {
+				v = pick(r, []int64{1, 1, 10, 100, 1000, -1, 2}) // unit and power-of-ten entries, anywhere in the vector
+			}
 			if st.ch == 'f' {
 				v = int64(math.Float32bits(float32(v) / 8))
 			}
@@ -562,7 +565,9 @@ func gmMeta(r *rng, key string) []byte {
 		}
 		return klv(key, 'S', 2, 1, beInts(2, int64(r.intn(3000))))
 	case "GPSU":
-		return klv(key, 'U', 16, 1, []byte(fmt.Sprintf("2205%02d%02d%02d%02d.%03d", 1+r.intn(28), r.intn(24), r.intn(60), r.intn(60), r.intn(1000))))
+		// two-digit years on both sides of the pivot (69..99 are 19yy, 00..68 are 20yy)
+		yy := pick(r, []int{22, 22, 17, 99, 69, 68, 0, 70, 85, 38})
+		return klv(key, 'U', 16, 1, []byte(fmt.Sprintf("%02d05%02d%02d%02d%02d.%03d", yy, 1+r.intn(28), r.intn(24), r.intn(60), r.intn(60), r.intn(1000))))
 	case "TYPE":
 		v := pick(r, []string{"Lffff", "Lffffffffffffffffffffff", "Lffffff", "BBSSSSSBB"})
 		return klv(key, 'c', 1, len(v), []byte(v))
